@@ -29,6 +29,8 @@ pub trait SimHooks: Send + Sync {
     fn before_join(&self);
     /// Called on the caller thread right before a message is put into the search thread's channel.
     fn before_send(&self);
+    /// Called on the search thread when it has emptied its command channel during a search.
+    fn drained(&self) {}
 }
 
 static HOOKS: RwLock<Option<Arc<dyn SimHooks>>> = RwLock::new(None);
@@ -81,6 +83,10 @@ pub fn idle_exit() {
 
 pub fn before_send() {
     if let Some(h) = hooks() { h.before_send(); }
+}
+
+pub fn drained() {
+    if let Some(h) = hooks() { h.drained(); }
 }
 
 pub fn before_join() {
